@@ -32,7 +32,7 @@ def gen_library(rng, idx):
     def params(maxn, universe):
         n = rng.randint(0, maxn)
         ps = [rng.choice(universe) for _ in range(n)]
-        nd = rng.choice([0, 0, 1, 2]) if n else 0
+        nd = rng.choice([0, 0, 1, 2, 3]) if n else 0
         return [(t, i >= n - nd) for i, t in enumerate(ps)]
 
     def distinct_sigs(k, maxn):
@@ -57,7 +57,7 @@ def gen_library(rng, idx):
         # one value type per overload set (differing non-void result types do not compile: that is C05's concern);
         # a void member may be mixed in (known finding lua-overloads-mixed-result)
         rt = rng.choice(list(RET))
-        for j, p in enumerate(distinct_sigs(rng.choice([1, 1, 2, 3]), 3)):
+        for j, p in enumerate(distinct_sigs(rng.choice([1, 1, 2, 3]), rng.choice([3, 5]))):
             # (a void member after a value-returning one does not compile: only the first may be void)
             funcs.append(dict(name=name, params=p, ret=rt, method=False, ctor=False))
     cls = []
@@ -66,7 +66,7 @@ def gen_library(rng, idx):
     for i in range(rng.randint(1, 3)):
         name = "meth%d" % i
         rt = rng.choice(list(RET))
-        for j, p in enumerate(distinct_sigs(rng.choice([1, 1, 2]), 3)):
+        for j, p in enumerate(distinct_sigs(rng.choice([1, 1, 2]), rng.choice([3, 5]))):
             cls.append(dict(name=name, params=p, ret=rt, method=True, ctor=False))
     return dict(funcs=funcs, cls=cls, idx=idx)
 
